@@ -15,8 +15,9 @@ def chk(pid, engine, category, technique, text, note, ref):
 
 
 chk("C14", "latx+seqx", "exploration",
-    "exhaustive enumeration of a critical-value float lattice and of all addition histories up to depth 3/4, "
-    "each executed on the real Time class and compared with an exact rational reference model",
+    "exhaustive enumeration of a critical-value float lattice, of all addition histories up to depth 3/4 and of all "
+    "heap-ordered layouts (6-7 distinct times; 15 entries over 3 time levels) across a counter overflow, each executed "
+    "on the real Time class / schedulers and compared with an exact rational reference model",
     "Every (quotient, remainder, displacement) triple, every ordered pair of times and every bounded addition "
     "history of a lattice built from the branch/rounding boundaries of binary64 is run on the real class and "
     "compared with fractions.Fraction arithmetic; the space is finite and enumerated completely.",
@@ -52,7 +53,8 @@ chk("C05", "latx", "exploration",
 chk("C18", "latx", "exploration",
     "exhaustive enumeration of rate vectors x both random draws (table row, exact grid of the second draw, end "
     "points) on the real Walker, and of (cell grid, active cell, direction, charge sign, walker answer) on the real "
-    "cell-veto handlers with an injective stub estimator",
+    "cell-veto handlers with an injective stub estimator; plus deviation-bounded exploration of the real mediator on "
+    "every configuration with a cell-veto handler (offset has a bound at proposal, active cell unchanged at commit)",
     "Probabilities are exact integer counts; target cell and confirmation bound are compared with index arithmetic "
     "modulo n and the bound the stub estimator produced for that offset (threshold located by bisection).",
     "Estimator replaced by a stub (the handlers only consume its numbers); grids and vectors outside the lattice are "
@@ -62,7 +64,8 @@ chk("C06", "seqx", "model_checking",
     "explicit-state breadth-first search over all protocol-respecting push/trash/get/pickle histories (3-4 handlers, "
     "tie-rich and 2^40/2^52 time alphabets, empty / pre-filled across the realloc boundary / counters just below 2^32 "
     "start states) executed on the real HeapScheduler and ListScheduler and compared with a reference dict at every "
-    "step; plus an exhaustive C driver on heap.c under ASan+UBSan",
+    "step; every heap-ordered array layout (6-8 distinct times, 15 entries over 3 levels) with stale entries across "
+    "delete_events; plus an exhaustive C driver on heap.c under ASan+UBSan",
     "Every transition of the bounded state space is executed on freshly rebuilt real objects (the model is the "
     "reference dict, so every explored trace is an implementation trace); states are merged only by a canonical form "
     "containing every field the future depends on; a drain oracle runs in every state.",
@@ -93,7 +96,9 @@ chk("C07", "envx", "exploration", ENVA_TECH,
     "and event-time monotonicity from the candidate times pushed to the scheduler.", ENVA_NOTE, "DESIGN.md §5/C07")
 chk("C08", "envx", "exploration", ENVA_TECH,
     "For every pending interaction / cell-veto candidate the global values of its in-state units at creation are "
-    "stored and compared at every leg (eager form) and at commit (velocity bit-equal, same straight line).",
+    "stored and compared at every leg (eager form) and at commit (velocity bit-equal, same straight line); the time "
+    "under which the scheduler delivers a handler must be its live candidate time (also with all lazy-deletion "
+    "counters preset to 2^32 - 4, and across a dump/resume at leg k).",
     ENVA_NOTE, "DESIGN.md §5/C08")
 chk("C09", "envx", "exploration", ENVA_TECH,
     "At every leg the pending multiset per tagger (built only from the activator's return values) is compared with "
@@ -149,7 +154,9 @@ chk("C10", "latx+seqx", "exploration",
     "exhaustive enumeration of static cell configurations (grids x neighbour layers x occupant caps x unit kinds x "
     "placements on cell-critical positions) and of every sequence of <= 3 changes of the active unit on the real "
     "cells / occupancy / cell taggers, and of generated factor files (all index orders) on the real FactorTypeMaps "
-    "and FactorTypeMapInStateTagger; oracle: exact multiset partition / index sets computed from the file text",
+    "and FactorTypeMapInStateTagger; the real cell-veto handlers for every active cell x direction x alias row; and "
+    "deviation-bounded exploration of the real mediator on every configuration with a cell system (pending nearby + "
+    "surplus + far events cover every other unit once); oracle: exact multiset partition / index sets",
     "The partition oracle is identifier-level and exact; the occupancy is driven through its public update() with "
     "real extracted active states, so incrementally updated (non-initial) occupancy states are covered.",
     "Placements subsampled deterministically in the quick tier (<= 150 per setting); estimators stubbed.",
